@@ -356,8 +356,8 @@ func nest(key string, children ...[]byte) []byte {
 	for _, c := range children {
 		body = append(body, c...)
 	}
-	// size 1, repeat = length (≤ 65535) or size 4, repeat = length/4
-	if len(body) <= 65535 && len(body)%4 == 0 && len(body) > 0 {
+	// size 4, repeat = length/4 (up to 256 KiB) when the length allows, else size 1, repeat = length
+	if len(body)/4 <= 65535 && len(body)%4 == 0 && len(body) > 0 {
 		return append(append([]byte(key), 0, 4, byte(len(body)/4>>8), byte(len(body)/4)), body...)
 	}
 	return append(append([]byte(key), 0, 1, byte(len(body)>>8), byte(len(body))), body...)
@@ -428,7 +428,7 @@ func gmLeaf(r *rng, s *sink) []byte {
 	if size*count > 2000 {
 		count = 2000 / size
 	}
-	if gmBig && r.chance(1, 150) {
+	if gmBig && r.chance(1, 250) {
 		// a payload around and beyond 64 KiB (size x repeat no longer fits 16 bits); half of them
 		// string-typed (their values are cut out of the payload by offset)
 		if r.chance(1, 2) {
@@ -834,6 +834,13 @@ func corpusGM(cfg *config) []string {
 			}
 			ops = append(ops, "read wf "+hexBytes(d))
 		}
+	}
+	if cfg.prop == "C06" || cfg.prop == "C09" {
+		// string arrays whose payload is beyond 64 KiB (offsets no longer fit 16 bits)
+		ops = append(ops,
+			"read wf "+hexBytes(nest("DEVC", nest("STRM", klv("UNIT", 'c', 255, 258, bytes.Repeat([]byte("abcdefg\x00"), 255*258/8+1)[:255*258])))),
+			"read wf "+hexBytes(nest("DEVC", klv("ABCD", 'F', 4, 16400, bytes.Repeat([]byte("GPS5"), 16400)))),
+			"read wf "+hexBytes(nest("DEVC", klv("ABCD", 'G', 16, 4100, bytes.Repeat([]byte("0123456789abcdef"), 4100)))))
 	}
 	return ops
 }
